@@ -1144,10 +1144,80 @@ type KeyParams struct {
 	InnerDyn bool
 	InnerSel int
 	Chunks   int // 0: no split leaf; n: the split leaf SUMS has n chunks
+	// Ragged ("arr" or "map"): the outer call maps over an array whose
+	// elements are themselves the inner collections (arrays / typed maps of
+	// different sizes, shape OuterSel); Outer/Inner are ignored.
+	Ragged string `json:",omitempty"`
 }
 
 func (d KeyParams) String() string {
+	if d.Ragged != "" {
+		return fmt.Sprintf("keys{ragged=%s/%v/%d chunks=%d}", d.Ragged, d.OuterDyn, d.OuterSel, d.Chunks)
+	}
 	return fmt.Sprintf("keys{outer=%s/%v/%d inner=%s/%v/%d chunks=%d}", d.Outer, d.OuterDyn, d.OuterSel, d.Inner, d.InnerDyn, d.InnerSel, d.Chunks)
+}
+
+// raggedFlow: map call INNER(c = split <array of collections>) where INNER
+// maps its leaves over self.c.
+func raggedFlow(d KeyParams) *Program {
+	p := baseProgram()
+	p.Desc = d.String()
+	innerT := ArrayOf(IntT)
+	outName := "aa"
+	src := RaggedArrays(d.OuterSel)
+	if d.Ragged == "map" {
+		innerT = TMapOf(IntT)
+		outName = "am"
+		src = RaggedMaps(d.OuterSel)
+	}
+	p.Stages = append(p.Stages, &Stage{Name: "RAGGED", Fn: "RAGGED", Ins: []Param{{T: IntT, Name: "sel"}},
+		Outs: []Param{{T: ArrayOf(ArrayOf(IntT)), Name: "aa"}, {T: ArrayOf(TMapOf(IntT)), Name: "am"}}})
+	top := &Pipeline{Name: "TOP", Ins: []Param{{T: IntT, Name: "n"}}}
+	inner := &Pipeline{Name: "INNER", Ins: []Param{{T: IntT, Name: "x"}, {T: innerT, Name: "c"}}}
+	inner.Calls = append(inner.Calls, &Call{Callee: "ADD", Map: true, Binds: []Bind{{"a", Self("x")}, {"b", SplitE(Self("c"))}}})
+	inner.Outs = append(inner.Outs, Param{T: innerT, Name: "zs"})
+	inner.Ret = append(inner.Ret, Bind{"zs", Ref("ADD", "sum")})
+	if d.Chunks > 0 {
+		xs := &Val{K: VArr}
+		for i := 0; i < d.Chunks; i++ {
+			xs.A = append(xs.A, Int(int64(i+1)))
+		}
+		inner.Calls = append(inner.Calls, &Call{Callee: "SUMS", Map: true, Binds: []Bind{{"xs", Lit(xs)}, {"k", SplitE(Ref("ADD", "sum"))}}})
+		inner.Outs = append(inner.Outs, Param{T: innerT, Name: "ts"})
+		inner.Ret = append(inner.Ret, Bind{"ts", Ref("SUMS", "total")})
+	}
+	p.Pipelines = append(p.Pipelines, inner)
+	var srcE *Exp
+	if d.OuterDyn {
+		top.Calls = append(top.Calls, &Call{Callee: "RAGGED", Binds: []Bind{{"sel", Lit(Int(int64(d.OuterSel)))}}})
+		srcE = Ref("RAGGED", outName)
+	} else {
+		srcE = TLit(p, src, ArrayOf(innerT))
+	}
+	top.Calls = append(top.Calls, &Call{Callee: "INNER", Map: true, Binds: []Bind{{"x", Self("n")}, {"c", SplitE(srcE)}}})
+	for _, o := range inner.Outs {
+		top.Outs = append(top.Outs, Param{T: ArrayOf(o.T), Name: "r_" + o.Name})
+		top.Ret = append(top.Ret, Bind{"r_" + o.Name, Ref("INNER", o.Name)})
+	}
+	p.Pipelines = append(p.Pipelines, top)
+	p.Top = &Call{Callee: "TOP", Binds: []Bind{{"n", Lit(Int(7))}}}
+	FixUnused(p)
+	return p
+}
+
+// RaggedFamily enumerates the ragged nests.
+func RaggedFamily(thorough bool) []KeyParams {
+	var out []KeyParams
+	for _, kind := range []string{"arr", "map"} {
+		for sel := 0; sel < RaggedCount(); sel++ {
+			for _, dyn := range []bool{false, true} {
+				for _, ch := range []int{0, 2} {
+					out = append(out, KeyParams{Ragged: kind, OuterDyn: dyn, OuterSel: sel, Chunks: ch})
+				}
+			}
+		}
+	}
+	return out
 }
 
 func keySource(kind string, dyn bool, sel int, call string) (*Exp, *T) {
@@ -1173,6 +1243,9 @@ func keySource(kind string, dyn bool, sel int, call string) (*Exp, *T) {
 
 // KeyFlow builds the program for d.
 func KeyFlow(d KeyParams) *Program {
+	if d.Ragged != "" {
+		return raggedFlow(d)
+	}
 	p := baseProgram()
 	p.Desc = d.String()
 	keys := &Stage{Name: "KEYS", Fn: "KEYS", Ins: []Param{{T: IntT, Name: "sel"}},
@@ -1304,6 +1377,7 @@ func KeyFamily(thorough bool) []KeyParams {
 			}
 		}
 	}
+	out = append(out, RaggedFamily(thorough)...)
 	return out
 }
 
@@ -1333,6 +1407,7 @@ func NestFamily(thorough bool) []KeyParams {
 			}
 		}
 	}
+	out = append(out, RaggedFamily(thorough)...)
 	return out
 }
 
